@@ -5,9 +5,11 @@ package checks
 import (
 	"crypto/rand"
 	"fmt"
+	"io"
 	"strings"
 
 	"github.com/ja7ad/otp/verifharness/ev"
+	"github.com/ja7ad/otp/verifharness/irt"
 	"github.com/ja7ad/otp/verifharness/xplore"
 )
 
@@ -18,6 +20,14 @@ import (
 var c08Env *c11Env
 
 func init() {
+	setRandomSeam = func(r io.Reader) bool {
+		if !irt.SeamInstalled() {
+			return false
+		}
+		irt.SetRandom(r)
+		return true
+	}
+	randomSeamLog = irt.SeamLog
 	c08Scheduled = func(r *ev.Run, register bool) {
 		old := rand.Reader
 		defer func() { rand.Reader = old }()
